@@ -8,6 +8,7 @@ suffix the reader recognises reaches the entry.  Does not decide byte-for-byte i
 """
 from common import *  # noqa: F401,F403
 import os
+import re
 import rsrules
 from rsrules import calls_named, trace_root, user_local_def_field, adt, is_loop_next_switch
 from taint import Taint, root_var
@@ -295,6 +296,49 @@ def rule_f3(ctx, F):
         ctx.bad("F3", "parse_delimiter_line:only-line-terminators-ignored", "parse_delimiter_line: %s — lines of the input that merely look like delimiters become delimiters and `--update` cuts the input there" % why, {"function": fn.name})
 
 
+def rule_f5(ctx, F):
+    """The attribute text written back on --update is `header_lines.strip_prefix(&test_name)`: that
+    only works while test_name is the *verbatim* concatenation of the header's leading lines.  So the
+    prefix operand may only ever be grown by push_str of an untransformed element of `lines`."""
+    import rsrules
+    from rsrules import deep_text
+    fn = ctx.need_fn(F, "test::parse_header", "F5")
+    if not fn:
+        return
+    sp = [(pt, n) for pt, e in fn.points() for n in own_walk(e) if n.get("k") == "call" and (n.get("fn") or "").endswith("strip_prefix") and len(n.get("a", [])) == 2
+          and "String" in deep_text(fn, n["a"][0], user=False)]
+    if not sp:
+        ctx.bad("F5", "parse_header:attributes-by-prefix", "parse_header no longer derives the attribute text with strip_prefix(name); the rule needs re-reading")
+        return
+    pref = strip(sp[0][1]["a"][1])
+    while pref.get("k") == "un":
+        pref = strip(pref["e"])
+    root = rsrules.trace_root(fn, pref)
+    lines_param = fn.params[0]["name"] if fn.params else "lines"
+    muts = []
+    for pt, e in fn.points():
+        for n in own_walk(e):
+            if n.get("k") == "call" and n.get("a") and "String" in (n.get("fn") or "") and "Deref" not in (n.get("fn") or ""):
+                a0 = rsrules.cond_def(fn, n["a"][0])
+                is_mut = (strip(n["a"][0]).get("t") or "").startswith("&mut") or (a0.get("k") == "un" and a0.get("op") == "&" and a0.get("mut"))
+                if is_mut and rsrules.trace_root(fn, n["a"][0]) == root:
+                    muts.append((pt, n))
+    ctx.floor("mutations of the name prefix in parse_header", len(muts), 1)
+    bad = []
+    for pt, n in muts:
+        short = (n.get("fn") or "").split("::")[-1]
+        arg = deep_text(fn, n["a"][1], user=False) if len(n["a"]) > 1 else ""
+        if not (short == "push_str" and re.match(r"^&\*\*%s\[\w+\]$" % re.escape(lines_param), arg)):
+            bad.append((pt, short, arg))
+    if not bad:
+        ctx.ok("F5", "parse_header:name-prefix-is-verbatim", "`%s` (the prefix stripped to obtain the attribute text) grows only by push_str of untransformed header lines (%d site(s))" % (root, len(muts)),
+               sample={"function": fn.name, "sites": [fn.loc(p) for p, n in muts]})
+    else:
+        pt, short, arg = bad[0]
+        ctx.bad("F5", "parse_header:name-prefix-is-verbatim", "parse_header changes `%s` with %s(%s) at %s: it is no longer a verbatim prefix of the header lines, strip_prefix() fails and the test's attribute lines are silently dropped on --update" % (
+            root, short, arg[:80], fn.loc(pt)), {"site": fn.loc(pt)})
+
+
 def rule_f4(ctx, F):
     """The field stripper recognises every plain-identifier field name (ASCII letters, digits and
     `_` — the alphabet the generator's own identifier sanitiser passes through unchanged).  A
@@ -350,6 +394,7 @@ def run(ctx):
     rule_p1(ctx, F)
     rule_f3(ctx, F)
     rule_f4(ctx, F)
+    rule_f5(ctx, F)
     return ctx.finish(
         "Field-flow, taint and path-counting rules over rustc MIR of crates/cli/src/test.rs: each TestCorrection is built from the entry's own name/input/attributes/delimiter lengths; "
         "the writer reads every field; with --update each Example path to Ok(true) records exactly one correction; the recognised delimiter suffix must reach the entry. "
